@@ -339,24 +339,72 @@ fn loom_leg(ctx: &Ctx) {
     let exe = std::env::current_exe().unwrap();
     let thorough = !ctx.quick();
     let scs: Vec<&str> = LOOM_SCENARIOS.to_vec();
+    // Each scenario runs in a child process under a wall-clock limit with falling preemption
+    // bounds (0 = unbounded); the bound that completed is what the evidence states.
+    let bounds: Vec<usize> = if thorough { vec![0, 6, 5, 4] } else { vec![3, 2] };
+    let limit = std::time::Duration::from_secs(if thorough { 300 } else { 40 });
     let results = vcommon::par_map(&scs, 3, |_, sc| {
-        let o = std::process::Command::new(&exe).arg("--loom-scenario").arg(sc).env("VERIF_TIER", if thorough { "thorough" } else { "quick" }).env_remove("LD_PRELOAD").output();
-        match o {
-            Ok(o) => {
-                let so = String::from_utf8_lossy(&o.stdout).to_string();
-                let se = String::from_utf8_lossy(&o.stderr).to_string();
-                (o.status.code(), so.lines().find_map(|l| l.strip_prefix("LOOM-EXECUTIONS ").and_then(|n| n.trim().parse::<u64>().ok())), se)
+        let mut last: (Option<i32>, Option<u64>, String, usize) = (None, None, String::from("no bound completed within the time limit"), usize::MAX);
+        for &b in &bounds {
+            let child = std::process::Command::new(&exe)
+                .arg("--loom-scenario")
+                .arg(sc)
+                .env("VERIF_LOOM_BOUND", b.to_string())
+                .env_remove("LD_PRELOAD")
+                .stdout(std::process::Stdio::piped())
+                .stderr(std::process::Stdio::piped())
+                .spawn();
+            let mut child = match child {
+                Ok(c) => c,
+                Err(e) => return (None, None, format!("spawn failed: {}", e), b),
+            };
+            let started = Instant::now();
+            let mut timed_out = false;
+            loop {
+                match child.try_wait() {
+                    Ok(Some(_)) => break,
+                    Ok(None) => {
+                        if started.elapsed() > limit {
+                            let _ = child.kill();
+                            timed_out = true;
+                            break;
+                        }
+                        std::thread::sleep(std::time::Duration::from_millis(50));
+                    }
+                    Err(_) => break,
+                }
             }
-            Err(e) => (None, None, e.to_string()),
+            if timed_out {
+                let _ = child.wait();
+                continue;
+            }
+            match child.wait_with_output() {
+                Ok(o) => {
+                    let so = String::from_utf8_lossy(&o.stdout).to_string();
+                    let se = String::from_utf8_lossy(&o.stderr).to_string();
+                    last = (o.status.code(), so.lines().find_map(|l| l.strip_prefix("LOOM-EXECUTIONS ").and_then(|n| n.trim().parse::<u64>().ok())), se, b);
+                }
+                Err(e) => last = (None, None, format!("wait failed: {}", e), b),
+            }
+            break;
         }
+        last
     });
     let mut total = 0u64;
     let mut samples = vec![];
-    for (sc, (code, n, se)) in scs.iter().zip(results) {
+    let mut all_top = true;
+    for (sc, (code, n, se, bound)) in scs.iter().zip(results) {
+        if bound != bounds[0] {
+            all_top = false;
+        }
+        let bound_txt = if bound == 0 { "unbounded".to_string() } else if bound == usize::MAX { "none".to_string() } else { bound.to_string() };
         match (code, n) {
             (Some(0), Some(n)) => {
                 total += n;
-                samples.push(json!({"scenario": sc, "executions": n}));
+                samples.push(json!({"scenario": sc, "executions": n, "preemption_bound_completed": bound_txt}));
+            }
+            (None, None) if se.starts_with("no bound completed") => {
+                samples.push(json!({"scenario": sc, "executions": 0, "preemption_bound_completed": null, "note": se}));
             }
             _ => {
                 if let Some(p) = se.find("LAW ") {
@@ -377,10 +425,10 @@ fn loom_leg(ctx: &Ctx) {
         transitions: total,
         evaluations: total,
         distinct_nontrivial: scs.len() as u64,
-        rule: "loom executions over the listed scenarios (counting threads x increments + snapshot thread)".into(),
+        rule: "loom executions over the listed scenarios (counting threads x increments + snapshot thread); per scenario the highest preemption bound that completed within the wall limit".into(),
         samples,
-        exhaustive: true,
-        bounds: json!({"preemption_bound": if thorough { "unbounded" } else { "3" }, "scenarios": scs}),
+        exhaustive: all_top,
+        bounds: json!({"preemption_bounds_tried": bounds.iter().map(|b| if *b == 0 { "unbounded".to_string() } else { b.to_string() }).collect::<Vec<_>>(), "wall_limit_s_per_attempt": limit.as_secs(), "scenarios": scs}),
         wall_s: t0.elapsed().as_secs_f64(),
     });
 }
@@ -530,8 +578,8 @@ fn as_leg(ctx: &Ctx) {
 fn main() {
     let args: Vec<String> = std::env::args().collect();
     if args.len() >= 3 && args[1] == "--loom-scenario" {
-        let thorough = std::env::var("VERIF_TIER").as_deref() == Ok("thorough");
-        loom_scenario(&args[2], if thorough { None } else { Some(3) });
+        let bound = std::env::var("VERIF_LOOM_BOUND").ok().and_then(|b| b.parse::<usize>().ok()).unwrap_or(3);
+        loom_scenario(&args[2], if bound == 0 { None } else { Some(bound) });
         println!("LOOM-EXECUTIONS {}", LOOM_EXECUTIONS.load(StdOrdering::Relaxed));
         return;
     }
@@ -548,7 +596,7 @@ fn main() {
             }
             "loom" => {
                 let exe = std::env::current_exe().unwrap();
-                let o = std::process::Command::new(exe).arg("--loom-scenario").arg(r["detail"]["scenario"].as_str().unwrap()).env("VERIF_TIER", "thorough").output().unwrap();
+                let o = std::process::Command::new(exe).arg("--loom-scenario").arg(r["detail"]["scenario"].as_str().unwrap()).env("VERIF_LOOM_BOUND", "4").output().unwrap();
                 if !o.status.success() {
                     ctx.violation("loom", r["signature"].as_str().unwrap(), r["detail"].clone());
                 }
